@@ -126,8 +126,12 @@ def _cut_some(rnd, t, p, R):
 
 
 def generate(rnd, tier):
-    m = rnd.randint(0, 19)   # len 40 %, len_solver 10 %, int 15 %, count 35 %
+    m = rnd.randint(0, 19)   # len 35 %, len_solver 10 %, int 25 %, count 30 %
     rseed = rnd.randint(0, 10 ** 6)
+    if m >= 18:
+        m = 12  # more of the int mode (histories on one solver object need the case count)
+    if m <= 8:
+        m = min(m, 7)
     if m <= 9:
         g = _grammar(rnd)
         cg = rt.canon(g)
@@ -158,7 +162,18 @@ def generate(rnd, tier):
             w = c14_lib.numeral_value(rt.tyield(gen.tree(rnd, cg, A, rnd.randint(1, 6))))
             if w is not None:
                 v = -w if rnd.randint(0, 2) == 0 else w
-        return {"mode": "int", "grammar": g, "nt": A, "v": v, "rseed": rseed}
+        case = {"mode": "int", "grammar": g, "nt": A, "v": v, "rseed": rseed}
+        if chance(rnd, 0.7):
+            # a short history on ONE solver object: further values of other digit counts for the same type
+            # (per-solver caches must not make a later result depend on an earlier one)
+            cg = rt.canon(g)
+            more = []
+            for _ in range(rnd.randint(1, 2)):
+                w = c14_lib.numeral_value(rt.tyield(gen.tree(rnd, cg, A, rnd.randint(1, 6))))
+                if w is not None:
+                    more.append(-w if rnd.randint(0, 3) == 0 else w)
+            case["more"] = more
+        return case
     # count
     g = _grammar(rnd)
     cg = rt.canon(g)
@@ -410,6 +425,33 @@ def _judge_int(case, cg, res):
     res["nontrivial"] = True
     res["violations"] = _check_int(cg, A, v, t)
     res["sample"] = {"mode": "int", "grammar": g, "nt": A, "v": v, "string": s}
+    # history: the same solver object is asked for further values; each answer must be what a fresh solver gives
+    for j, w in enumerate(case.get("more") or []):
+        if res["violations"]:
+            break
+        labels.append("int:history")
+        xw, mw = _model("i_0", w)
+
+        def ask(sv):
+            try:
+                return ("tree", sv.extract_model_value(var, mw, {var: xw}, set(), {var}))
+            except RuntimeError as e:
+                if str(e).startswith("Could not parse a numeric solution"):
+                    return ("refused", None)
+                return ("raises:" + type(e).__name__, None)
+            except Exception as e:
+                from vlib.runner import reraise_if_timeout
+                reraise_if_timeout(e)
+                return ("raises:" + type(e).__name__, None)
+
+        same = ask(solver)
+        if same[0] == "tree":
+            res["violations"] += _check_int(cg, A, w, rt.from_dt(same[1]))
+            continue
+        fresh = ask(ISLaSolver(g))  # only needed when the used solver did not answer with a tree
+        if fresh[0] == "tree":
+            res["violations"].append({"sig": "int:history_dependent:%s" % same[0], "grammar": g, "nt": A, "values": [v] + list(case["more"][:j + 1]),
+                                      "fresh_solver_gives": rt.tyield(rt.from_dt(fresh[1]))})
     return res
 
 
